@@ -2,6 +2,8 @@
 
 from __future__ import annotations
 
+from collections import deque
+
 import optree
 
 from mc import e1, gen
@@ -41,6 +43,9 @@ def check(ctx, tree, leaves0, dsl, cfg):  # noqa: C901, PLR0912
     for route, fn in (
         ('tree_unflatten', lambda: optree.tree_unflatten(spec, leaves)),
         ('spec.unflatten', lambda: spec.unflatten(iter(leaves))),
+        ('tree_unflatten[tuple]', lambda: optree.tree_unflatten(spec, tuple(leaves))),
+        ('tree_unflatten[generator]', lambda: optree.tree_unflatten(spec, (x for x in leaves))),
+        ('spec.unflatten[deque]', lambda: spec.unflatten(deque(leaves))),
         ('tree_map-identity', lambda: optree.tree_map(lambda x: x, tree, **kw)),
     ):
         try:
